@@ -223,6 +223,55 @@ func main() {
 			})
 		})
 
+		// One Dialer value (an application's configured dialer) serves a second connection: the
+		// request it writes and everything both sides report are the same as for the first.
+		r.Part("E1b-one-dialer-value-two-connections", func(t *explore.T) {
+			t.Par(len(pairs), func(i int) {
+				p := pairs[i]
+				if p.cExt == "none" && len(p.cProto) == 0 {
+					return
+				}
+				t.Do(func() string { return "dialer used twice: " + p.String() }, func() *explore.Fail {
+					d := p.dialer()
+					type outcome struct {
+						req, resp  string
+						cErr, sErr string
+						proto, ext string
+					}
+					var outs []outcome
+					for k := 0; k < 2; k++ {
+						var o outcome
+						var sHs ws.Handshake
+						var sErr error
+						conn := &hs.LazyConn{}
+						conn.Respond = func(r []byte) []byte {
+							o.req = string(blankKey(append([]byte{}, r...)))
+							var out bytes.Buffer
+							sHs, sErr = p.upgrader().Upgrade(struct {
+								io.Reader
+								io.Writer
+							}{bytes.NewReader(r), &out})
+							o.resp = string(blankAccept(append([]byte{}, out.Bytes()...)))
+							return out.Bytes()
+						}
+						br, cHs, cErr := d.Upgrade(conn, theURL)
+						if br != nil {
+							ws.PutReader(br)
+						}
+						o.cErr, o.sErr = fmt.Sprint(cErr), fmt.Sprint(sErr)
+						o.proto = cHs.Protocol + "/" + sHs.Protocol
+						o.ext = normExt(cHs.Extensions) + "/" + normExt(sHs.Extensions)
+						outs = append(outs, o)
+					}
+					if outs[0] != outs[1] {
+						return explore.Failf("second-connection-of-the-same-dialer-differs", "first:  %+v\nsecond: %+v", outs[0], outs[1])
+					}
+					return nil
+				})
+			})
+			t.Outcome("same")
+		})
+
 		// E2: every split of the incoming bytes into reads, server and client side.
 		r.Part("E2-all-chunkings-state-keyed", func(t *explore.T) {
 			bufs := []int{16, 32}
